@@ -113,6 +113,7 @@ type caseOut struct {
 	Diff        string      `json:"diff,omitempty"`    // direct oracle: upstream vs server
 	RiDiff      string      `json:"ri_diff,omitempty"` // server: range query vs its instant queries
 	UpRiDiff    string      `json:"up_ri_diff,omitempty"`
+	RiChecked   bool        `json:"ri_checked,omitempty"` // the server's range answer was compared with its instant answers
 	NSeries     int         `json:"nseries"`
 	NPoints     int         `json:"npoints"`
 	Up          *jresult    `json:"up,omitempty"`
@@ -653,11 +654,47 @@ func runCase1(n int, di int, ds *dataset, u *upstream, sv *server, e exprCase, m
 	}
 	co.Start, co.End, co.Step = start, end, step
 	up := u.rangeq(e.Expr, start, end, step)
+	svr := sv.rangeq(ds.DB, e.Expr, start, end, step)
+	var steps []int64
+	for x := start; x <= end; x += step {
+		steps = append(steps, x)
+	}
+	// (1) "a range query equals the sequence of instant queries at its steps", checked on the SERVER ALONE for every
+	// generated range query (the generator never produces more than 61 steps); it does not involve the upstream engine
+	var fromSv result
+	if len(steps) <= 64 && svr.Err == "" && svr.Kind == "matrix" {
+		var si []result
+		for _, x := range steps {
+			si = append(si, sv.instant(ds.DB, e.Expr, x))
+		}
+		fromSv = rangeFromInstants(steps, si)
+		co.RiChecked = true
+		co.RiDiff = cmpResults(fromSv, svr)
+		if fromSv.Err != "" {
+			co.RiDiff = "server-error at a step: " + fromSv.Err
+		}
+		if co.RiDiff != "" {
+			co.Sv = toJ(svr)
+			co.Up = toJ(fromSv)
+			switch {
+			case absentOffset(e.Expr) > 0:
+				co.Known = addRule(co.Known, fAbsentOff)
+			case maxOffsetUnderAgg(e.Expr) > 0:
+				co.Known = addRule(co.Known, fOffAgg)
+			case rangeShorterThanStep(e.Expr, step) || (hasMatrixSelector(e.Expr) && fromSv.Err == "" && trailingLoss(fromSv, svr)):
+				co.Known = addRule(co.Known, fStepGtRange)
+			case hasVectorVectorBinop(e.Expr) && fromSv.Err == "" && extraPointsOnly(fromSv, svr):
+				co.Known = addRule(co.Known, fBinopNext)
+			default:
+				co.Unexplained = true
+			}
+		}
+	}
 	if up.Err != "" {
 		co.UpErr = up.Err
 		return co
 	}
-	svr := sv.rangeq(ds.DB, e.Expr, start, end, step)
+	// (2) the direct oracle: upstream vs server
 	co.NSeries, co.NPoints = countPts(up)
 	lastStep := start + (end-start)/step*step
 	co.Diff = cmpResults(up, svr)
@@ -666,49 +703,20 @@ func runCase1(n int, di int, ds *dataset, u *upstream, sv *server, e exprCase, m
 		ok, ex := explainDiff(ds, &e, "range", start, lastStep, step, svr, func(x string) result { return u.rangeq(x, start, end, step) })
 		co.Explain = ex
 		if ok {
-			co.Known = ex.Rules
+			for _, k := range ex.Rules {
+				co.Known = addRule(co.Known, k)
+			}
 		} else {
 			co.Unexplained = true
 		}
 	}
-	// a range query equals the sequence of instant queries at its steps (checked on both engines)
-	var steps []int64
-	for x := start; x <= end; x += step {
-		steps = append(steps, x)
-	}
-	if len(steps) <= 16 && svr.Err == "" {
-		var ui, si []result
+	// (3) sanity of the oracle itself: upstream's range answer is its instant answers (short ranges only)
+	if len(steps) <= 16 && up.Kind == "matrix" {
+		var ui []result
 		for _, x := range steps {
 			ui = append(ui, u.instant(e.Expr, x))
-			si = append(si, sv.instant(ds.DB, e.Expr, x))
 		}
-		fromUp := rangeFromInstants(steps, ui)
-		fromSv := rangeFromInstants(steps, si)
-		if up.Kind == "matrix" {
-			co.UpRiDiff = cmpResults(up, fromUp)
-			co.RiDiff = cmpResults(fromSv, svr)
-			if fromSv.Err != "" {
-				co.RiDiff = "server-error at a step: " + fromSv.Err
-			}
-			if co.RiDiff != "" {
-				if co.Sv == nil {
-					co.Sv = toJ(svr)
-					co.Up = toJ(fromSv)
-				}
-				switch {
-				case absentOffset(e.Expr) > 0:
-					co.Known = addRule(co.Known, fAbsentOff)
-				case maxOffsetUnderAgg(e.Expr) > 0:
-					co.Known = addRule(co.Known, fOffAgg)
-				case rangeShorterThanStep(e.Expr, step) || (hasMatrixSelector(e.Expr) && fromSv.Err == "" && trailingLoss(fromSv, svr)):
-					co.Known = addRule(co.Known, fStepGtRange)
-				case hasVectorVectorBinop(e.Expr) && fromSv.Err == "" && extraPointsOnly(fromSv, svr):
-					co.Known = addRule(co.Known, fBinopNext)
-				default:
-					co.Unexplained = true
-				}
-			}
-		}
+		co.UpRiDiff = cmpResults(up, rangeFromInstants(steps, ui))
 	}
 	return co
 }
